@@ -1,18 +1,20 @@
-# Common environment for building /repo and the harness offline without touching /repo.
+# Common environment for building the repository and the harness offline without touching the repository.
+# VERIF_ROOT: this verification tree (default: where this script lives); VERIF_REPO: the repository (default /repo).
 export GOFLAGS= GOPROXY=off GOSUMDB=off GOTOOLCHAIN=local CGO_ENABLED=${CGO_ENABLED:-1}
 export CARGO_NET_OFFLINE=true PIP_NO_INDEX=1
-VERIF_ROOT=/verif
+VERIF_ROOT=${VERIF_ROOT:-$(cd "$(dirname "${BASH_SOURCE[0]}")/.." && pwd)}
+VERIF_REPO=${VERIF_REPO:-/repo}
+export VERIF_ROOT VERIF_REPO
 mkdir -p $VERIF_ROOT/.build $VERIF_ROOT/.work
-if [ ! -f $VERIF_ROOT/.build/go.work ]; then
-cat > $VERIF_ROOT/.build/go.work.tmp.$$ <<EOW
+# private workspace file: building through it leaves the repository byte-for-byte untouched
+mkwork() { # mkwork <file>
+cat > "$1" <<EOW
 go 1.23
 
 use (
-	/repo
-	/repo/cmd/hranoprovod-cli
-	/verif/harness
+	$VERIF_REPO
+	$VERIF_REPO/cmd/hranoprovod-cli
+	$VERIF_ROOT/harness
 )
 EOW
-mv $VERIF_ROOT/.build/go.work.tmp.$$ $VERIF_ROOT/.build/go.work
-fi
-export GOWORK=$VERIF_ROOT/.build/go.work
+}
